@@ -112,6 +112,9 @@ def binary_ops():
     return B
 
 
+EXTRA_TAGS = []     # appended to the tags of every failure `check` reports (set by the stream that calls it)
+
+
 def check(ctx, name, operands, impl_fn, torch_fn, exact, reqs, meta):
     case = dict(op=name, operands=[ptgen.enc_pt(t) for t in operands])
     nontriv = any(not is_dense(t) for t in operands)
@@ -127,7 +130,7 @@ def check(ctx, name, operands, impl_fn, torch_fn, exact, reqs, meta):
         got = impl_fn(*operands)
     except VerifInvariantError as e:
         ctx.fail(f'{name}: the library constructed a PatternedTensor that violates the representation invariant: {e}', case, repr(e), None,
-                 tags=['invariant', name.split('_')[0]])
+                 tags=['invariant', name.split('_')[0]] + EXTRA_TAGS)
         return
     except Exception as e:  # noqa
         got = e
@@ -140,17 +143,17 @@ def check(ctx, name, operands, impl_fn, torch_fn, exact, reqs, meta):
             ctx.count('reshape-refused')
             return
         ctx.fail(f'{name} raised {type(got).__name__}: {str(got)[:100]} where torch returns a tensor', case, repr(got), None,
-                 tags=['raises', name.split('_')[0], type(got).__name__])
+                 tags=['raises', name.split('_')[0], type(got).__name__] + EXTRA_TAGS)
         return
     try:
         gd = got.to_dense() if isinstance(got, PatternedTensor) else got
     except Exception as e:  # noqa
         ctx.fail(f'{name}: to_dense() of the result raised {type(e).__name__}: {str(e)[:100]}', case, repr(e), None,
-                 tags=['raises', 'result-to_dense', name.split('_')[0], type(e).__name__])
+                 tags=['raises', 'result-to_dense', name.split('_')[0], type(e).__name__] + EXTRA_TAGS)
         return
     if not same_dense(gd, want, 0.0 if exact else 1e-12):
         ctx.fail(f'{name}: result does not denote torch\'s result on the dense operands', case, gd.tolist(), want.tolist(),
-                 tags=['value', name.split('_')[0]])
+                 tags=['value', name.split('_')[0]] + EXTRA_TAGS)
     if isinstance(got, PatternedTensor) and got.dtype != torch.bool and got.physical.numel() <= 300:
         reqs.append(f'C06.dense {ptgen.enc_pt(got)}'); meta.append((case, name, gd))
 
@@ -172,6 +175,46 @@ def run_float32(ctx, n):
         for name, f, g, exact, pre in U:
             if pre is None or pre(t):
                 check(ctx, name + '_f32', [t], f, g, True, reqs, meta)
+
+
+def run_zero_size(ctx, n):
+    """tensors with a dimension of size 0 (an empty domain; well typed): the op table on operands whose index types contain the atom 0.
+    Failures carry the tag `zero-size-axis-nested` when some operand has a zero-size PhysicalAxis inside a ProductAxis or SumAxis
+    (finding D50: Axis.unify answers True for a zero product without binding anything, and the caller's project() then raises)"""
+    from fggs.indices import ProductAxis, SumAxis
+    def nested_zero(e, inside=False):
+        if isinstance(e, PhysicalAxis):
+            return inside and e._numel == 0
+        if isinstance(e, ProductAxis):
+            return any(nested_zero(f, True) for f in e.factors)
+        return nested_zero(e.term, True)
+    U, B = unary_ops(), binary_ops()
+    reqs, meta = [], []
+    for k in range(n):
+        nd = ctx.rng.choice([1, 2, 2, 3])
+        types = [random_type(ctx.rng, depth=ctx.rng.choice([0, 1, 2]), sizes=[0, 1, 2, 3, 0]) for _ in range(nd)]
+        if math.prod(ty_numel(t) for t in types) != 0:
+            continue
+        t = random_pt(ctx.rng, types); u = random_pt(ctx.rng, types)
+        tb, ub = random_pt(ctx.rng, types, bool_=True), random_pt(ctx.rng, types, bool_=True)
+        ctx.count('zero-size')
+        EXTRA_TAGS[:] = ['zero-size-axis-nested'] if any(nested_zero(e) for x in (t, u, tb, ub) for e in x.vaxes) else []
+        for name, f, g, exact, pre in ctx.rng.sample(U, 12):
+            if pre is None or pre(t):
+                check(ctx, name, [t], f, g, exact, reqs, meta)
+        for name, f, g, exact in B:
+            check(ctx, name, [t, u], f, g, exact, reqs, meta)
+        check(ctx, 'where', [t, tb, u], lambda a, c, b_: a.where(c, b_), lambda a, c, b_: a.where(c, b_), True, reqs, meta)
+        check(ctx, 'logical_and', [tb, ub], lambda a, c: a.logical_and(c), lambda a, c: a.logical_and(c), True, reqs, meta)
+        for dim in range(nd):
+            for keep in (False, True):
+                check(ctx, f'any_{dim}_{keep}', [tb], lambda a, dim=dim, keep=keep: a.any(dim, keepdim=keep),
+                      lambda a, dim=dim, keep=keep: a.any(dim, keepdim=keep), True, reqs, meta)
+        perm = list(range(nd)); ctx.rng.shuffle(perm)
+        check(ctx, 'permute', [t], lambda a: a.permute(perm), lambda a: a.permute(perm), True, reqs, meta)
+        check(ctx, 'flatten', [t], lambda a: a.flatten(), lambda a: a.flatten(), True, reqs, meta)
+        check(ctx, 'clone', [t], lambda a: a.clone(), lambda a: a.clone(), True, reqs, meta)
+        EXTRA_TAGS[:] = []
 
 
 def run_binary_representation(ctx):
@@ -474,6 +517,7 @@ def run(ctx):
     if unclassified:
         ctx.fail('PatternedTensor has public operations that the check does not classify', sorted(unclassified), None, None, tags=['unclassified-op'])
     run_float32(ctx, 60 if ctx.quick else 600)
+    run_zero_size(ctx, 80 if ctx.quick else 1200)
     run_binary_representation(ctx)
     run_reshape_representation(ctx)
     run_shape_representation(ctx)
